@@ -505,6 +505,12 @@ func planApp(t target, dst target, st *Step, rhs *target) outcome {
 			if rt != tIface && !typeConvertible(rt, et) {
 				// typed operand whose element type has no conversion to the element type
 				if xv.Len() == 0 {
+					if (rt.Kind() == reflect.Slice) != (et.Kind() == reflect.Slice) {
+						// a slice of slices and a slice of plain values: ill-typed whatever the lengths
+						o := errOut("conv")
+						o.note = "append:empty_operand_of_other_nesting_depth"
+						return o
+					}
 					return outcome{skip: "empty_ill_typed_slice_operand"}
 				}
 				return errOut("conv")
